@@ -1,6 +1,7 @@
 package props
 
 import (
+	structform "github.com/elastic/go-structform"
 	"math"
 
 	"github.com/elastic/go-structform/gotype"
@@ -96,3 +97,171 @@ func SELFREF(h *rt.H) {
 }
 
 type nullCounter struct{ ev.Recorder }
+
+type ptIn struct{ A int8 }
+type ptKey string
+
+type ptFields struct {
+	F **ptIn
+	G int8
+	M map[string]*ptIn
+	S []**ptIn
+	Q *[]int8
+}
+
+// FOLDUNFOLD_Pointers (C11, C13, C14): pointers to structs, slices and maps below
+// maps, pointers, slices and struct fields (the child-done notification has to travel
+// up through every pointer level), and maps with a named string key type: fold then
+// unfold into a fresh variable reproduces the value.
+func FOLDUNFOLD_Pointers(h *rt.H) {
+	x, y := int8(h.U8("x")), int8(h.U8("y"))
+	i1, i2 := &ptIn{x}, &ptIn{y}
+	sl := []int8{x, y}
+	psl := &sl
+	mp := map[string]int8{"k": x}
+	pmp := &mp
+	ok := false
+	var err, nerr error
+	fu := func(v, out interface{}) {
+		var u *gotype.Unfolder
+		u, nerr = gotype.NewUnfolder(out)
+		if nerr == nil {
+			err = gotype.Fold(v, u)
+		}
+	}
+	switch h.Choose("shape", 0, 9) {
+	case 0:
+		var out map[string]*ptIn
+		fu(map[string]*ptIn{"a": i1, "b": i2}, &out)
+		ok = len(out) == 2 && out["a"] != nil && out["b"] != nil && rt.And(out["a"].A == x, out["b"].A == y)
+	case 1:
+		var out map[string]*[]int8
+		fu(map[string]*[]int8{"a": psl, "b": psl}, &out)
+		ok = len(out) == 2 && out["a"] != nil && out["b"] != nil && len(*out["a"]) == 2 && len(*out["b"]) == 2 && rt.And((*out["a"])[0] == x, (*out["b"])[1] == y)
+	case 2:
+		var out **ptIn
+		fu(&i1, &out)
+		ok = out != nil && *out != nil && (*out).A == x
+	case 3:
+		var out []**ptIn
+		fu([]**ptIn{&i1, &i2}, &out)
+		ok = len(out) == 2 && out[0] != nil && *out[0] != nil && out[1] != nil && *out[1] != nil && rt.And((*out[0]).A == x, (*out[1]).A == y)
+	case 4:
+		var out ptFields
+		fu(ptFields{F: &i1, G: y, M: map[string]*ptIn{"a": i2}, S: []**ptIn{&i1}, Q: psl}, &out)
+		ok = out.F != nil && *out.F != nil && out.M["a"] != nil && len(out.S) == 1 && out.S[0] != nil && *out.S[0] != nil && out.Q != nil && len(*out.Q) == 2
+		if ok {
+			ok = rt.And(rt.And((*out.F).A == x, out.G == y), rt.And(rt.And(out.M["a"].A == y, (*out.S[0]).A == x), rt.And((*out.Q)[0] == x, (*out.Q)[1] == y)))
+		}
+	case 5:
+		var out map[string]**[]int8
+		fu(map[string]**[]int8{"a": &psl, "b": &psl}, &out)
+		ok = len(out) == 2 && out["a"] != nil && *out["a"] != nil && len(**out["a"]) == 2 && out["b"] != nil && *out["b"] != nil && len(**out["b"]) == 2 && rt.And((**out["a"])[0] == x, (**out["b"])[1] == y)
+	case 6:
+		var out ***map[string]int8
+		ppm := &pmp
+		fu(&ppm, &out)
+		ok = out != nil && *out != nil && **out != nil && len(***out) == 1 && (***out)["k"] == x
+	case 7:
+		var out map[ptKey][]int8
+		fu(map[ptKey][]int8{"a": {x}, "b": {y}}, &out)
+		ok = len(out) == 2 && len(out["a"]) == 1 && len(out["b"]) == 1 && rt.And(out["a"][0] == x, out["b"][0] == y)
+	case 8:
+		var out map[ptKey]ptIn
+		fu(map[ptKey]ptIn{"a": {x}}, &out)
+		ok = len(out) == 1 && out["a"].A == x
+	case 9:
+		var out map[ptKey]int8
+		fu(map[ptKey]int8{"a": x}, &out)
+		ok = len(out) == 1 && out["a"] == x
+	}
+	if nerr != nil {
+		// a type that cannot be handled may be refused when the target is set
+		h.Tag("target-refused")
+		return
+	}
+	h.Assert("no-error", err == nil)
+	h.Assert("deep-equal", ok)
+}
+
+type strIface interface{ String() string }
+
+type mifStruct struct {
+	A int8
+	F strIface
+}
+
+// UNFOLD_MethodIface (C14, C15): targets that would have to store the stream's
+// values in an interface type with methods (a struct field, slice element, map
+// element or the target itself): no value a stream can deliver is assignable to it,
+// so the target is refused or every event that would store into it returns an error;
+// the unfolder never writes a value through an invalid reinterpretation of the
+// interface (the engine's view check; natively the stored value is used afterwards).
+func UNFOLD_MethodIface(h *rt.H) {
+	x := int8(h.U8("x"))
+	var (
+		st  mifStruct
+		sl  []strIface
+		mp  map[string]strIface
+		top strIface
+	)
+	which := h.Choose("target", 0, 3)
+	target := []interface{}{&st, &sl, &mp, &top}[which]
+	u, err := gotype.NewUnfolder(target)
+	if err != nil {
+		h.Tag("target-refused")
+		return
+	}
+	v := structform.EnsureExtVisitor(u)
+	step := func(e error) {
+		if err == nil {
+			err = e
+		}
+	}
+	val := func() {
+		switch h.Choose("value", 0, 3) {
+		case 0:
+			step(v.OnString("abc"))
+		case 1:
+			step(v.OnInt8(x))
+		case 2:
+			step(v.OnBool(true))
+		case 3:
+			step(v.OnObjectStart(-1, structform.AnyType))
+			step(v.OnKey("k"))
+			step(v.OnInt8(x))
+			step(v.OnObjectFinished())
+		}
+	}
+	switch which {
+	case 0:
+		step(v.OnObjectStart(-1, structform.AnyType))
+		step(v.OnKey("a"))
+		step(v.OnInt8(x))
+		step(v.OnKey("f"))
+		val()
+		step(v.OnObjectFinished())
+	case 1:
+		step(v.OnArrayStart(-1, structform.AnyType))
+		val()
+		step(v.OnArrayFinished())
+	case 2:
+		step(v.OnObjectStart(-1, structform.AnyType))
+		step(v.OnKey("f"))
+		val()
+		step(v.OnObjectFinished())
+	case 3:
+		val()
+	}
+	// whatever was stored must be usable as what its static type says
+	use := func(s strIface) bool { return s == nil || len(s.String()) >= 0 }
+	okUse := use(st.F) && use(top)
+	for _, e := range sl {
+		okUse = okUse && use(e)
+	}
+	for _, e := range mp {
+		okUse = okUse && use(e)
+	}
+	h.Assert("stored-values-usable", okUse)
+	h.Assert("mismatch-is-an-error", err != nil)
+}
